@@ -82,9 +82,9 @@ def replays() -> None:
 
 
 def deviations() -> None:
-    for dev, kinds, sched in (("DateMemo", '{"call", "tick"}', "0"), ("PartialMemo", '{"call", "edit"}', "0"), ("SharedNode", '{"pair"}', "3")):
+    for dev, kinds, sched in (("DateMemo", '{"call", "tick"}', "0"), ("PartialMemo", '{"call", "edit"}', "0"), ("SharedNode", '{"pair"}', "3"), ("SharedLoader", '{"call"}', "0")):
         r = tlc.run("LiquidHistory", tlc.cfg_text(constants={"MaxOps": "3", "MaxFault": "0", "Dev": '{"%s"}' % dev, "Focus": '"h"', "Kinds": kinds,
-                                                             "MaxSched": sched, "TSet": "{}", "DSet": "{}"}, invariants=["HistoryIndependent"]),
+                                                             "MaxSched": sched, "TSet": "{}", "DSet": "{}", "ESet": "{1, 2, 3}"}, invariants=["HistoryIndependent"]),
                     tag="selftest-history", timeout=1200)
         expect(bool(r.invariant_violated), f"TLC refutes HistoryIndependent under the deviation {dev}")
         r.cleanup()
